@@ -437,3 +437,87 @@ pub fn run(o: &Opts) {
     }
     sink.finish(o, &st.json(maxlen));
 }
+
+// ------------------------------------------------------------------ C20T (real terminal)
+
+/// Sessions typed into a pseudo-terminal (see `tty::debug_session`): lines of `echo @…` commands
+/// separated by `;`, edited with every key the editor knows, history recall, ended by `exit`.
+fn tty_case(r: &mut Rng) -> Case {
+    const WORDS: [&str; 8] = ["@a", "@b1", "@é", "@中x", "@12", "@a b", "@", "@ab  c"];
+    const INS: [char; 8] = ['a', 'b', '1', 'é', ' ', ';', '@', '中'];
+    let mut hist = Vec::new();
+    for _ in 0..r.below(3) {
+        hist.push(format!("echo {}", r.pick(&WORDS)));
+    }
+    let mut keys = Vec::new();
+    for _ in 0..1 + r.below(3) {
+        if !hist.is_empty() || !keys.is_empty() {
+            for _ in 0..r.below(3) {
+                keys.push(if r.chance(2, 3) { Key::Up } else { Key::Down });
+            }
+        }
+        for seg in 0..1 + r.below(3) {
+            if seg > 0 {
+                keys.push(Key::Char(';'));
+            }
+            keys.extend(keys_of(&format!("echo {}", r.pick(&WORDS))));
+        }
+        for _ in 0..r.below(7) {
+            keys.push(match r.below(10) {
+                0 => Key::Left,
+                1 => Key::Right,
+                2 => Key::CtrlLeft,
+                3 => Key::CtrlRight,
+                4 => Key::Backspace,
+                5 => Key::Delete,
+                6 => Key::Up,
+                7 => Key::Down,
+                _ => Key::Char(*r.pick(&INS)),
+            });
+        }
+        if r.chance(1, 6) {
+            keys.push(Key::Enter); // possibly on a blank line
+        }
+        keys.push(Key::Enter);
+    }
+    // leave whatever line is focused, type `exit` on a fresh one
+    for _ in 0..4 {
+        keys.push(Key::Down);
+    }
+    for _ in 0..40 {
+        keys.push(Key::Backspace);
+    }
+    keys.extend(keys_of("exit"));
+    keys.push(Key::Enter);
+    Case { hist, keys }
+}
+
+pub fn run_tty(o: &Opts) {
+    let mut sink = Sink::new(o);
+    let tmp = crate::cli::TmpDir::new(&format!("c20t-{}", o.shard));
+    let dir = tmp.0.clone();
+    let req = |c: &Case| c.request().replacen("K20", "U20", 1);
+    if let Some(path) = &o.replay {
+        for line in std::fs::read_to_string(path).unwrap().lines() {
+            match Case::parse(&line.replacen("U20", "K20", 1)) {
+                Some(c) => sink.put(line, &crate::tty::debug_session(&dir, &c.hist, &c.keys)),
+                None => sink.put(line, "bad-request"),
+            }
+        }
+        sink.finish(o, "{}");
+        return;
+    }
+    let mut rng = Rng::new(o.seed.wrapping_mul(40503) ^ (o.shard as u64) << 32 ^ 0x20_7717);
+    let total = if o.thorough { 30 } else { 5 };
+    let mut kinds: BTreeMap<String, u64> = BTreeMap::new();
+    for _ in 0..total {
+        let c = tty_case(&mut rng);
+        for k in &c.keys {
+            *kinds.entry(key_token(k).chars().take_while(|ch| !ch.is_ascii_digit() || ch.is_ascii_uppercase()).collect::<String>()).or_default() += 1;
+        }
+        sink.put(&req(&c), &crate::tty::debug_session(&dir, &c.hist, &c.keys));
+    }
+    let n = sink.n;
+    let kk = kinds.iter().map(|(k, v)| format!("\"{}\":{}", k, v)).collect::<Vec<_>>().join(",");
+    sink.finish(o, &format!("{{\"cases\":{},\"tty_sessions\":{},\"tty_keys\":{{{}}},\"samples\":[]}}", n, n, kk));
+}
